@@ -50,6 +50,10 @@ CHECKS = {
    text="spec/Dispose.tla models any number of Dispose/DisposeForce/context attempts racing through the stages of doDispose (SingleWinner, DisposeHandlersOnce, AllWaitersReleased, Completes under fairness). On the real machine disposal is landed on an idle machine, a short and a long running queue, inside a negotiation handler, a final handler, Eval, and from inside a handler, by Dispose, DisposeForce, parent-context cancel, two Disposes and Dispose+DisposeForce, with and without handlers and with one outstanding waiter of every kind; the dd.* stage hooks are validated against the spec and the end state is judged: every waiter released, contexts cancelled, dispose handlers exactly once, handler loop exited, callers neither panicked nor blocked, ~75 later API calls return promptly with a neutral value.",
    note="Landing points are reached by blocking handlers / timing, not by gates inside doDispose; DisposeForce is documented to cause panics in concurrent callers (not counted). Trusted base: TLC, the dd.* and hl.exit hooks.",
    technique="TLA+ spec of the disposal stages + TLC; disposal scenarios on the real code; trace validation of stage hooks and end state"),
+ "C15": dict(level="model_checking", design_ref="DESIGN.md §4 C15", engine="supervisor",
+   text="Supervisor.tla resolves every supervisor mutation with the TLA+ transcription of the machine's relation resolver (Transition!RunTx) on the real SupervisorSchema (regenerated from the tree on every run) and adds the fork / ready gates and handler bodies as coded; TLC explores every order in which fork returns, connects, readiness flips, errors, kills, Heartbeat and NormalizingPool rounds reach the queue for pool settings 0..3 (plus random behaviours to 6) and checks WithinMax, NoForkAtMax, PoolReadyHonest, PoolReadyKept, KillRequested(Delivered), GroupsExclusive. The real Supervisor is driven through TestFork / TestKill gates with real in-memory workers; every transition is sampled through a verif accessor, validated by TLC against the spec's step, and the formulas are evaluated on the logged values, including TLC's own over-fork / short-pool / lost-error schedules forced on the code.",
+   note="Bounded sub-models (<= 4 fork attempts, <= 3 errors, 2 rounds, queue overlap <= 3); readiness is the supervisor's own replica view; a PoolReady that stays active after the pool became short is counted but not judged; group exclusivity over all reachable sets is C19's, here it is checked on the recorded supervisor and worker traces. Trusted base: TLC, the TestFork/TestKill seams, pkg/node verif_on.go.",
+   technique="TLA+/TLC bounded exhaustive model checking + trace validation of real executions + TLC-generated schedule replay"),
  "C16": dict(level="model_checking", design_ref="DESIGN.md §4 C16", engine="debugger",
    text="TLC exhaustively checks, on bounded models, that the transcription of hParseMsg / GetTransitionStates equals the derivation from consecutive records, that the transcribed binary searches (TxAtQueueTick, TxAtMachTime, TxIndex, HadErrSinceTx ...) equal linear scans on monotone input, and that the cursor / filter machine (Fwd, Back, ScrollToTx, ToggleTool, tail mode, ingestion) satisfies FilterSound, FwdBackIdentity and NoPanic from every reachable cursor position. A real headless am-dbg (tcell simulation screen) is driven with real telemetry from generated machines (directly and over loopback TCP, several clients), with TLC-generated command behaviours and with function-level look-ups; every logged value is validated by TLC: formulas (RecordFaithful, DerivedConsistent, LookupEqualsScan, FwdBackIdentity, FilterSound, ExportImportIdentity, NoPanic) for the verdict and the spec's own step for drift.",
    note="Exhaustive only within the constants (<= 6 records over 2-3 states; <= 4 records x <= 4 commands); end-to-end streams are seeded samples (exploration level); message GC, state groups, log/reader views and UI rendering are not covered; FilterSound is required when the debugger selects a transition, FwdBackIdentity for Fwd(1) that moved then Back(1). Trusted base: TLC, the headless debugger construction, tools/debugger verif_on.go.",
@@ -102,7 +106,8 @@ def main():
                    source_commits=[l.strip() for l in open(os.path.join(ROOT, "hooks_commits.txt")) if l.strip()]
                    if os.path.exists(os.path.join(ROOT, "hooks_commits.txt")) else [],
                    add_only=True),
-        engines=[dict(name="debugger", path="spec/Debugger.tla spec/MCDebugger.tla spec/TraceDebugger.tla harness/dbgdrv tools/debuggercheck.py", serves_properties=["C16"], kind_free_text="TLA+ model of am-dbg's record derivation, look-ups and cursor/filter machine; headless debugger driven and validated"),
+        engines=[dict(name="supervisor", path="spec/Supervisor.tla spec/MCSupervisor.tla spec/TraceSupervisor.tla spec/SupSchema.tla harness/supdrv tools/supervisorcheck.py", serves_properties=["C15"], kind_free_text="TLA+ model of the node supervisor on top of Transition!RunTx; real supervisor driven through TestFork/TestKill gates"),
+                 dict(name="debugger", path="spec/Debugger.tla spec/MCDebugger.tla spec/TraceDebugger.tla harness/dbgdrv tools/debuggercheck.py", serves_properties=["C16"], kind_free_text="TLA+ model of am-dbg's record derivation, look-ups and cursor/filter machine; headless debugger driven and validated"),
                  dict(name="rpcsync", path="spec/RpcSync*.tla spec/MCRpcSync*.tla spec/TraceRpcSync.tla harness/rpcdrv tools/rpcsynccheck.py", serves_properties=["C09"], kind_free_text="TLA+ protocol model; forced schedules over an in-memory link; trace validation"),
                  dict(name="rpcdiff", path="spec/RpcDiff.tla spec/MCRpcDiff.tla spec/TraceRpcDiff.tla harness/rpcdiff tools/rpcdiffcheck.py", serves_properties=["C10"], kind_free_text="TLA+ transcription of the clock-diff codec; function-level conformance"),
                  dict(name="history", path="spec/History.tla spec/MCHistory.tla spec/TraceHistory.tla harness/histdrv tools/historycheck.py", serves_properties=["C17"], kind_free_text="TLA+ model of the history log and queries; four real backends validated against it"),
